@@ -404,4 +404,101 @@ Section Kraus.
 
   (* the initial state: no lane exists, every lane holds |0> *)
   Definition kinit : kst := mkK rI (fun x => rI) (fun _ => false) (fun _ => CXc) 0 0 0 0 [] true.
+
+  (* ---- the bookkeeping (flags, counters, record lanes) never looks at the bits, the amplitudes or the scalar ---- *)
+  Definition skel_eq (t t' : kst) : Prop :=
+    kex t = kex t' /\ kcol t = kcol t' /\ knrec t = knrec t' /\ knsil t = knsil t' /\ knerr t = knerr t' /\ kncorr t = kncorr t' /\
+    krecq t = krecq t' /\ kok t = kok t'.
+  Ltac skel_destruct H := destruct H as (Kex & Kcol & Knr & Kns & Kne & Knc & Krq & Kok).
+  Ltac skel_split := unfold skel_eq; cbn [kk kpsi kex kcol knrec knsil knerr kncorr krecq kok]; repeat match goal with |- _ /\ _ => split end.
+  Lemma skel_refl t : skel_eq t t.
+  Proof. skel_split; reflexivity. Qed.
+  Lemma skel_setpsi t t' p p' : skel_eq t t' -> skel_eq (ksetpsi t p) (ksetpsi t' p').
+  Proof. intro H. skel_destruct H. unfold ksetpsi. skel_split; assumption. Qed.
+  Lemma skel_setk t t' k k' : skel_eq t t' -> skel_eq (ksetk t k) (ksetk t' k').
+  Proof. intro H. skel_destruct H. unfold ksetk. skel_split; assumption. Qed.
+  Lemma skel_setcol t t' q c : skel_eq t t' -> skel_eq (ksetcol t q c) (ksetcol t' q c).
+  Proof. intro H. skel_destruct H. unfold ksetcol. skel_split; try assumption. rewrite Kcol. reflexivity. Qed.
+  Lemma skel_setex t t' q : skel_eq t t' -> skel_eq (ksetex t q) (ksetex t' q).
+  Proof. intro H. skel_destruct H. unfold ksetex. skel_split; try assumption. rewrite Kex. reflexivity. Qed.
+  Lemma skel_fail t t' : skel_eq t t' -> skel_eq (kfail t) (kfail t').
+  Proof. intro H. skel_destruct H. unfold kfail. skel_split; try assumption. reflexivity. Qed.
+  Lemma skel_cnt t t' nr ns ne nc rq : skel_eq t t' -> skel_eq (kcnt t nr ns ne nc rq) (kcnt t' nr ns ne nc rq).
+  Proof. intro H. skel_destruct H. unfold kcnt. skel_split; try assumption; reflexivity. Qed.
+  Lemma skel_ensure t t' q : skel_eq t t' -> skel_eq (kensure t q) (kensure t' q).
+  Proof.
+    intro H. pose proof H as H'. skel_destruct H'. unfold kensure. rewrite Kex. destruct (kex t' q); [exact H|].
+    apply skel_setcol, skel_setex, skel_setk. exact H.
+  Qed.
+  Lemma skel_do_meas b b' t t' q silent : skel_eq t t' -> skel_eq (kdo_meas b t q silent) (kdo_meas b' t' q silent).
+  Proof.
+    intro H. unfold kdo_meas. pose proof (skel_ensure t t' q H) as He.
+    set (u := kensure t q) in *. set (u' := kensure t' q) in *.
+    set (r := if silent then bit (bsil b) (knsil u) else bit (brec b) (knrec u)).
+    set (r' := if silent then bit (bsil b') (knsil u') else bit (brec b') (knrec u')).
+    assert (H1 : skel_eq (ksetcol (ksetk (ksetpsi u (aapp1 (projf r) q (kpsi u))) (ev psqrt2inv * kk u)) q CZc)
+                         (ksetcol (ksetk (ksetpsi u' (aapp1 (projf r') q (kpsi u'))) (ev psqrt2inv * kk u')) q CZc))
+      by (apply skel_setcol, skel_setk, skel_setpsi; exact He).
+    set (v := ksetcol _ q CZc) in *. set (v' := ksetcol _ q CZc) in *.
+    pose proof H1 as H1'. skel_destruct H1'. destruct silent; rewrite Knr, Kns, Kne, Knc, Krq; apply skel_cnt; exact H1.
+  Qed.
+  Lemma skel_do_err b b' t t' c q idx idx' : skel_eq t t' -> skel_eq (kdo_err b t c q idx) (kdo_err b' t' c q idx').
+  Proof.
+    intro H. unfold kdo_err. pose proof (skel_ensure t t' q H) as He. apply skel_setcol.
+    destruct (bit (berr b) idx), (bit (berr b') idx'); try apply skel_setpsi; try exact He.
+  Qed.
+
+  Lemma skel_fold f b b' : (forall o t t', skel_eq t t' -> skel_eq (kstep f b t o) (kstep f b' t' o)) ->
+    forall body t t', skel_eq t t' -> skel_eq (fold_left (kstep f b) body t) (fold_left (kstep f b') body t').
+  Proof.
+    intros IH body. induction body as [|o body IHb]; intros t t' H; cbn [fold_left]; [exact H|]. apply IHb, IH, H.
+  Qed.
+  Theorem skel_step b b' fuel : forall o t t', skel_eq t t' -> skel_eq (kstep fuel b t o) (kstep fuel b' t' o).
+  Proof.
+    induction fuel as [|f IHf]; intros o t t' H.
+    all: destruct o as [c q e | c q rel corr | q | is_cx ctl tgt cc | a c | q | q p silent restore | q trace | e | k | ch | k | p | q body |];
+      cbn [kstep]; pose proof H as H'; skel_destruct H'.
+    all: try (apply skel_setcol, skel_setpsi, skel_ensure; exact H).
+    all: try (rewrite Kne, Knc; apply skel_do_err; exact H).
+    all: try (apply skel_setpsi, skel_ensure; exact H).
+    all: try (apply skel_ensure; exact H).
+    all: try (apply skel_setk; exact H).
+    all: try exact H.
+    all: try (rewrite ?Knr, ?Kns, ?Kne, ?Knc, ?Krq; apply skel_cnt; exact H).
+    all: try (unfold kfinalize; rewrite Knc; destruct (kncorr t'); [exact H|]; rewrite Knr, Kns, Kne, Krq; apply skel_cnt; exact H).
+    all: try match goal with |- context [sw4] =>
+      pose proof (skel_ensure _ _ c (skel_ensure t t' a H)) as He; pose proof He as He'; destruct He' as (_ & Kc2 & _); rewrite Kc2;
+      apply skel_setcol, skel_setcol, skel_setpsi; exact He end.
+    all: try match goal with |- context [Qcompare 0 ?pp] =>
+      destruct (Qcompare 0 pp); cbv zeta; [apply skel_do_meas; exact H | | apply skel_do_meas; exact H];
+      pose proof (skel_do_err b b' t t' CXc q (knerr t) (knerr t') H) as H1;
+      pose proof (skel_do_meas b b' _ _ q silent H1) as H2;
+      set (t2 := kdo_meas b _ q silent) in *; set (t2' := kdo_meas b' _ q silent) in *;
+      assert (H3 : skel_eq (if restore then kdo_err b t2 CXc q (knerr t2) else t2) (if restore then kdo_err b' t2' CXc q (knerr t2') else t2'))
+        by (destruct restore; [apply skel_do_err; exact H2 | exact H2]);
+      set (t3 := if restore then _ else t2) in *; set (t3' := if restore then _ else t2') in *;
+      pose proof H3 as H3'; destruct H3' as (_ & _ & Knr3 & Kns3 & Kne3 & Knc3 & Krq3 & _);
+      rewrite Knr3, Kns3, Kne3, Knc3, Krq3; apply skel_cnt; exact H3 end.
+    all: try match goal with |- context [cutf] =>
+      rewrite Kex; destruct (kex t' q); cbn [negb]; [|apply skel_setcol, skel_setex; exact H]; cbv zeta;
+      assert (H1 : skel_eq (if trace then kdo_meas b t q true else t) (if trace then kdo_meas b' t' q true else t'))
+        by (destruct trace; [apply skel_do_meas; exact H | exact H]);
+      set (t1 := if trace then _ else t) in *; set (t1' := if trace then _ else t') in *;
+      pose proof H1 as H1'; destruct H1' as (_ & Kc1 & _); rewrite Kc1;
+      apply skel_setcol; destruct (kcol t1' q); apply skel_setpsi; exact H1 end.
+    all: try match goal with |- context [fold_left] => rewrite Kex; destruct (kex t' q); [|exact H]; apply (skel_fold f b b' IHf); exact H end.
+    all: try (apply skel_fail; exact H).
+    all: try match goal with |- context [cx4] =>
+      destruct cc as [[c0 c1]|];
+      [ destruct (c1 && negb is_cx)%bool;
+        [ destruct c0; [apply skel_fail; exact H|]; destruct c1; cbn [negb]
+        | destruct c1; [apply skel_fail; exact H|]; destruct c0; cbn [negb] ] | ];
+      try (apply skel_setcol, skel_setcol, skel_setpsi, skel_ensure, skel_ensure; exact H);
+      rewrite Krq;
+      match goal with |- context [kensure (kensure _ ?cq) ?tg] =>
+        pose proof (skel_ensure _ _ tg (skel_ensure t t' cq H)) as He end;
+      apply skel_setcol, skel_setcol; destruct (bit (brec b) _), (bit (brec b') _); try apply skel_setpsi; try exact He end.
+  Qed.
+  Theorem skel_run b b' ops t t' : skel_eq t t' -> skel_eq (krun b ops t) (krun b' ops t').
+  Proof. intro H. unfold krun. apply (skel_fold 8 b b' (skel_step b b' 8)). exact H. Qed.
 End Kraus.
